@@ -397,6 +397,7 @@ KAM_LAYOUTS = {
 }
 _CT_TYPES = ["6851111BN242101040", "685", "6850000000000000AB", "68500"]
 _NONCT_TYPES = ["6861111BN242101040", "6841138BN245101090", "6841121BN243101040", "684", "6 85", "0685", "68", "", "586", "6865"]
+_NONCT_TYPES += [pre + t for pre in (" ", "  ", "\t", "\n", "\r\n", "\x00", "\x0b", "\x0c", "+", "-", "0", "x", "'", '"', "\x7f") for t in ("685", "6851111BN242101040")]  # something (padding, sign, quote) in front of 685: not "beginning with 685"
 
 
 @st.composite
